@@ -359,6 +359,8 @@ class Ev:
             if name in ("copy", "flatten", "to_numpy", "tolist", "conj", "real"):
                 return BoundLib(f"ndarray.{name}", v)
             if name == "shape":
+                if getattr(self, "shape_of", None) is not None:
+                    return self.shape_of(v)
                 return ShapeOf(v)
         if isinstance(v, ModV):
             kind, ref = self.model.resolve_from(v.name, name)
@@ -384,8 +386,12 @@ class Ev:
             return Tup([sp.Symbol(f"dim{i}", positive=True, integer=True) for i in range(v.batch)] + [sp.Integer(x) for x in v.shape])
         if isinstance(v, ArrV) and name == "T" and len(v.shape) == 2 and v.batch == 0:
             return ArrV(0, v.shape[::-1], v.fill, {(j, i): x for (i, j), x in v.cells.items()})
+        if isinstance(v, ArrV) and name == "shape" and False:
+            pass
         if isinstance(v, DictV) and name in ("keys", "values", "items", "get", "update", "copy", "pop", "setdefault"):
             return BoundLib(f"dict.{name}", v)
+        if v is None:
+            raise RaisedV("AttributeError", f"{mod.rel}:{getattr(node, 'lineno', 0)}" if mod else "")
         raise self.err(f"unresolved attribute .{name} on {type(v).__name__} {v!r}", node, mod)
 
     def obj_attr(self, obj: Obj, name, node=None, mod=None):
@@ -627,7 +633,7 @@ class Ev:
         if isinstance(a, ArrV) or isinstance(b, ArrV):
             return self.arr_binop(op, a, b, n, mod)
         if isinstance(op, ast.MatMult):
-            return MatMul(as_sym(a), as_sym(b))
+            return MatProd(as_sym(a), as_sym(b))
         x, y = as_sym(a, "left operand"), as_sym(b, "right operand")
         if isinstance(op, ast.Add):
             return x + y
@@ -651,6 +657,8 @@ class Ev:
         """elementwise arithmetic on arrays with constant trailing axes (numpy broadcasting on those axes)"""
         def shape(x):
             return x.shape if isinstance(x, ArrV) else ()
+        if isinstance(op, ast.MatMult):
+            return self.arr_matmul(a, b, n, mod)
         sa, sb = shape(a), shape(b)
         nd = max(len(sa), len(sb))
         pa, pb = (1,) * (nd - len(sa)) + tuple(sa), (1,) * (nd - len(sb)) + tuple(sb)
@@ -670,6 +678,15 @@ class Ev:
 
         for key in itertools.product(*[range(d) for d in out_shape]):
             out.cells[key] = self.binop(op, get(a, pa, key), get(b, pb, key), n, mod)
+        return out
+
+    def arr_matmul(self, a, b, n, mod):
+        if not (isinstance(a, ArrV) and isinstance(b, ArrV) and len(a.shape) == 2 and len(b.shape) == 2 and a.shape[1] == b.shape[0]):
+            raise self.err("matrix product of operands that are not conforming constant-size matrices", n, mod)
+        out = ArrV(max(a.batch, b.batch), (a.shape[0], b.shape[1]))
+        for i in range(a.shape[0]):
+            for j in range(b.shape[1]):
+                out.cells[(i, j)] = sum((a.get((i, k)) * b.get((k, j)) for k in range(a.shape[1])), sp.Integer(0))
         return out
 
     def str_format(self, fmt, arg, n, mod):
@@ -813,6 +830,22 @@ class Ev:
                     return bool(x >= y)
             except TypeError:
                 raise self.err("ordering comparison of constants failed", n, mod)
+        if is_sym(a) and is_sym(b) and isinstance(op, (ast.Eq, ast.NotEq)) and (a.free_symbols | b.free_symbols) \
+                and all(s.is_integer for s in (a.free_symbols | b.free_symbols)):
+            d = sp.expand(a - b)
+            if d == 0 or d.is_zero:
+                return isinstance(op, ast.Eq)
+            if d.is_nonzero:
+                return isinstance(op, ast.NotEq)
+        if is_sym(a) and is_sym(b) and isinstance(op, (ast.Lt, ast.LtE, ast.Gt, ast.GtE)) and (a.free_symbols | b.free_symbols) \
+                and all(s.is_integer for s in (a.free_symbols | b.free_symbols)):
+            d = sp.expand(a - b)
+            table = {ast.Lt: (d.is_negative, d.is_nonnegative), ast.LtE: (d.is_nonpositive, d.is_positive),
+                     ast.Gt: (d.is_positive, d.is_nonpositive), ast.GtE: (d.is_nonnegative, d.is_negative)}[type(op)]
+            if table[0]:
+                return True
+            if table[1]:
+                return False
         if is_sym(a) or is_sym(b):
             opn = {ast.Eq: "==", ast.NotEq: "!=", ast.Lt: "<", ast.LtE: "<=", ast.Gt: ">", ast.GtE: ">="}.get(type(op))
             return CondV(src(n), a, opn, b)
@@ -1374,7 +1407,7 @@ class Transposed(sp.Function):
     nargs = 1
 
 
-class MatMul(sp.Function):
+class MatProd(sp.Function):
     nargs = 2
 
 
@@ -1522,7 +1555,10 @@ def lib_set(ev, a, k, n, mod):
 def lib_int(ev, a, k, n, mod):
     v = a[0]
     if isinstance(v, str):
-        return sp.Integer(int(v))
+        try:
+            return sp.Integer(int(v))
+        except ValueError:
+            raise RaisedV("ValueError")
     if is_sym(v) and v.is_Rational:
         return sp.Integer(int(v))
     raise ev.err("int() of a non-constant", n, mod)
@@ -1531,7 +1567,10 @@ def lib_int(ev, a, k, n, mod):
 def lib_float(ev, a, k, n, mod):
     v = a[0]
     if isinstance(v, str):
-        return num(float(v))
+        try:
+            return num(float(v))
+        except ValueError:
+            raise RaisedV("ValueError")
     return as_sym(v)
 
 
